@@ -66,6 +66,9 @@ pub enum Call {
     PartsQualEntry(String, String),
     /// `if let Ok(e) = q.entry(k) { e.or_insert(v) }` (`or_insert_with` when `v` has odd length)
     PartsQualOrInsert(String, String),
+    /// shorten a stored text in place (`truncate` to at most `n` bytes, on a character
+    /// boundary): field 0 namespace, 1 name, 2 version, 3 subpath, 4 every qualifier value
+    PartsTruncate(u8, u16),
 }
 
 /// Field touched by a call, for the commutation check ("calls on different fields commute").
@@ -92,6 +95,13 @@ impl Call {
             Call::Sub(_) | Call::NoSub | Call::PartsSub(_) => Field::Sub,
             Call::Type(_) | Call::PartsType(_) => Field::Type,
             Call::PartsQualIterMutAppend(_) => Field::AllQuals,
+            Call::PartsTruncate(f, _) => match f {
+                0 => Field::Ns,
+                1 => Field::Name,
+                2 => Field::Ver,
+                3 => Field::Sub,
+                _ => Field::AllQuals,
+            },
             Call::Qual(k, _) | Call::NoQual(k) | Call::PartsQual(k, _) | Call::PartsQualIndexMut(k, _) | Call::PartsQualGetMut(k, _) | Call::PartsQualEntry(k, _) | Call::PartsQualOrInsert(k, _) => {
                 if key_ok(k) {
                     Field::Qual(ascii_lower(k))
@@ -212,6 +222,22 @@ impl BModel {
             Call::PartsQualEntry(k, v) => {
                 if key_ok(k) {
                     self.quals.entry(ascii_lower(k)).and_modify(|x| x.push_str(v)).or_insert_with(|| v.clone());
+                }
+            },
+            Call::PartsTruncate(f, n) => {
+                let cut = |s: &mut String| {
+                    let mut n = (*n as usize).min(s.len());
+                    while !s.is_char_boundary(n) {
+                        n -= 1;
+                    }
+                    s.truncate(n);
+                };
+                match f {
+                    0 => cut(&mut self.ns),
+                    1 => cut(&mut self.name),
+                    2 => cut(&mut self.ver),
+                    3 => cut(&mut self.sub),
+                    _ => self.quals.values_mut().for_each(cut),
                 }
             },
             Call::PartsQualOrInsert(k, v) => {
@@ -383,6 +409,10 @@ pub fn universe_calls(typed: bool) -> Vec<Call> {
         v.push(Call::PartsQualOrInsert(k.into(), "o".into()));
     }
     v.push(Call::PartsQualIterMutAppend("+".into()));
+    for f in 0..5u8 {
+        v.push(Call::PartsTruncate(f, 0));
+        v.push(Call::PartsTruncate(f, 1));
+    }
     v.push(Call::Typed(4, Some("x".into())));
     v.push(Call::Typed(7, Some("x".into())));
     v.push(Call::Typed(7, None));
@@ -469,7 +499,7 @@ pub fn rand_cs_entries(r: &mut Rng) -> Vec<(String, CsVal)> {
 }
 
 pub fn rand_call(r: &mut Rng, typed: bool) -> Call {
-    match r.below(48) {
+    match r.below(49) {
         0..=3 => Call::Ns(rand_value(r)),
         4 => Call::NoNs,
         5..=8 => Call::Name(rand_value(r)),
@@ -519,6 +549,7 @@ pub fn rand_call(r: &mut Rng, typed: bool) -> Call {
         45 => Call::PartsQualEntry(rand_key(r), rand_value(r)),
         46 => Call::Reparse,
         47 => Call::PartsQualOrInsert(rand_key(r), rand_value(r)),
+        48 => Call::PartsTruncate(r.below(5) as u8, *r.pick(&[0u16, 0, 1, 2, 22, 23, 24, 100])),
         37 => {
             if typed {
                 Call::PartsType(r.pick(&model::KNOWN_TYPES).to_string())
@@ -596,6 +627,22 @@ pub fn stale_hist(r: &mut Rng, typed: bool) -> Hist {
         },
     };
     calls.push(change);
+    if r.chance(1, 4) {
+        // a text longer than the small-string inline limit, emptied or shortened in place
+        let long = format!("{}-longer-than-twenty-three-bytes", rand_value(r));
+        let f = r.below(5) as u8;
+        calls.push(match f {
+            0 => Call::Ns(long),
+            1 => Call::Name(long),
+            2 => Call::Ver(long),
+            3 => Call::Sub(long),
+            _ => Call::Qual(r.pick(&keys).clone(), long),
+        });
+        if r.coin() {
+            calls.push(Call::Rebuild);
+        }
+        calls.push(Call::PartsTruncate(f, *r.pick(&[0u16, 0, 0, 1, 5, 23, 24])));
+    }
     if r.chance(1, 3) {
         calls.push(Call::Rebuild);
     }
